@@ -70,7 +70,7 @@ struct Op {
   FileSpec fs;
 };
 
-struct TaskPlan { std::vector<Op> ops; int tloc = 0; /* caller's own thread locale, rt.h TLOC_* */ };
+struct TaskPlan { std::vector<Op> ops; int tloc = 0; /* caller's own thread locale, rt.h TLOC_* */ int wave = 0; /* threads engine: started after all tasks of lower waves have exited */ };
 
 struct Plan {
   std::string engine, batch;
